@@ -1134,6 +1134,9 @@ pub const BUGS: &[&str] = &[
     "empty-cel",
     "dangling-user-data",
     "tilemap-huge-extent",
+    "link-chain",
+    "sparse-palette-gap",
+    "bomb-with-links",
 ];
 
 fn ensure_tilemap(s: &mut SpriteSpec, r: &mut Rng) -> usize {
@@ -1881,6 +1884,213 @@ pub fn apply_bug(s: &mut SpriteSpec, bug: &str, r: &mut Rng, scale: usize) -> St
                 extra: false,
             });
             format!("tilemap of 32770 tiles of 65535 px ({})", if horizontal { "horizontal" } else { "vertical" })
+        }
+        "link-chain" => {
+            // very long chains / cycles of linked cels over `scale` frames
+            let n = scale.clamp(3, 65535);
+            s.durations = vec![100; n];
+            s.tags.clear();
+            s.tag_ud_count = 0;
+            for sl in &mut s.slices {
+                sl.keys.clear();
+            }
+            s.cels.clear();
+            let li = match s.layers.iter().position(|l| l.kind == 0) {
+                Some(i) => i,
+                None => {
+                    s.layers.push(LayerSpec {
+                        flags: 1,
+                        kind: 0,
+                        tileset: 0,
+                        level: 0,
+                        blend: 0,
+                        opacity: 255,
+                        name: "img".into(),
+                        ud: None,
+                    });
+                    s.layers.len() - 1
+                }
+            } as u16;
+            if s.fmt == Fmt::Indexed && s.palette.is_none() && s.legacy.is_none() {
+                s.palette = Some(PaletteSpec {
+                    first: 0,
+                    entries: vec![([0, 0, 0, 255], None)],
+                });
+            }
+            let px = if s.fmt == Fmt::Indexed {
+                vec![*index_domain(s).first().unwrap_or(&0)]
+            } else {
+                vec![5; bpp]
+            };
+            let raw = |frame: u16| CelSpec {
+                frame,
+                layer: li,
+                x: 0,
+                y: 0,
+                opacity: 255,
+                body: CelBody::Raw {
+                    w: 1,
+                    h: 1,
+                    pixels: px.clone(),
+                    compressed: false,
+                    level: 0,
+                },
+                ud: None,
+                extra: false,
+            };
+            let link = |frame: u16, to: u16| CelSpec {
+                frame,
+                layer: li,
+                x: 0,
+                y: 0,
+                opacity: 255,
+                body: CelBody::Linked(to),
+                ud: None,
+                extra: false,
+            };
+            let variant = r.below(4);
+            match variant {
+                0 => {
+                    // forward chain: k -> k+1, last raw
+                    for k in 0..n - 1 {
+                        s.cels.push(link(k as u16, k as u16 + 1));
+                    }
+                    s.cels.push(raw(n as u16 - 1));
+                }
+                1 => {
+                    // backward chain: first raw, k -> k-1
+                    s.cels.push(raw(0));
+                    for k in 1..n {
+                        s.cels.push(link(k as u16, k as u16 - 1));
+                    }
+                }
+                2 => {
+                    // two-cel cycle in a sprite with many (empty) frames
+                    s.cels.push(link(0, 1));
+                    s.cels.push(link(1, 0));
+                }
+                _ => {
+                    // every frame links to the raw frame 0 (well-formed, very long)
+                    s.cels.push(raw(0));
+                    for k in 1..n {
+                        s.cels.push(link(k as u16, 0));
+                    }
+                }
+            }
+            format!("{} frames, linked-cel pattern {}", n, ["forward chain", "backward chain", "two-cel cycle", "all link to frame 0"][variant as usize])
+        }
+        "sparse-palette-gap" => {
+            // indexed sprite whose (legacy, multi-packet) palette has gaps; one pixel in a gap
+            s.fmt = Fmt::Indexed;
+            s.palette = None;
+            s.sprite_ud = None;
+            let ty = if r.chance(1, 2) { 0x0004 } else { 0x0011 };
+            // the library does not add a packet's count to the running skip, so a packet's
+            // range is [sum of skips so far, + count)
+            let mut packets: Vec<(u8, Vec<[u8; 3]>)> = Vec::new();
+            let mut have = std::collections::BTreeSet::new();
+            let mut start = 0u32;
+            let np = 2 + r.usize_below(3);
+            for i in 0..np {
+                let skip = if i == 0 { 0 } else { 1 + r.below(6) as u8 };
+                start += skip as u32;
+                let cnt = 1 + r.usize_below(3);
+                for k in 0..cnt as u32 {
+                    have.insert(start + k);
+                }
+                packets.push((skip, (0..cnt).map(|_| [r.below(64) as u8, 9, 9]).collect()));
+            }
+            s.legacy = Some((ty, packets));
+            let dom: Vec<u8> = have.iter().filter(|x| **x < 256).map(|x| *x as u8).collect();
+            let maxid = *have.iter().max().unwrap();
+            let gaps: Vec<u8> = (0..maxid.min(255)).filter(|x| !have.contains(x)).map(|x| x as u8).collect();
+            for c in &mut s.cels {
+                if let CelBody::Raw { w, h, pixels: p, .. } = &mut c.body {
+                    *p = pixels(r, Fmt::Indexed, *w as usize * *h as usize, &dom);
+                }
+            }
+            for t in &mut s.tilesets {
+                t.pixels = pixels(r, Fmt::Indexed, t.count as usize * t.tw as usize * t.th as usize, &dom);
+            }
+            let poison = r.chance(3, 4) && !gaps.is_empty();
+            let mut bad = None;
+            if poison {
+                let b = *r.pick(&gaps);
+                bad = Some(b);
+                let i = ensure_raw(s, r);
+                if let CelBody::Raw { pixels: p, w, h, .. } = &mut s.cels[i].body {
+                    *p = pixels(r, Fmt::Indexed, *w as usize * *h as usize, &dom);
+                    let k = r.usize_below(p.len());
+                    p[k] = b;
+                }
+            }
+            format!("palette ids {:?}, pixel in gap: {:?}", have, bad)
+        }
+        "bomb-with-links" => {
+            // one big, highly compressible, truthfully declared cel and many cels linked to it
+            let side = (scale.clamp(1, 64) * 64) as u16;
+            let nlinks = 48usize;
+            s.durations = vec![100; nlinks + 1];
+            s.tags.clear();
+            s.tag_ud_count = 0;
+            for sl in &mut s.slices {
+                sl.keys.clear();
+            }
+            s.cels.clear();
+            s.width = side;
+            s.height = side;
+            let li = match s.layers.iter().position(|l| l.kind == 0) {
+                Some(i) => i,
+                None => {
+                    s.layers.push(LayerSpec {
+                        flags: 1,
+                        kind: 0,
+                        tileset: 0,
+                        level: 0,
+                        blend: 0,
+                        opacity: 255,
+                        name: "img".into(),
+                        ud: None,
+                    });
+                    s.layers.len() - 1
+                }
+            } as u16;
+            if s.fmt == Fmt::Indexed && s.palette.is_none() && s.legacy.is_none() {
+                s.palette = Some(PaletteSpec {
+                    first: 0,
+                    entries: vec![([0, 0, 0, 255], None)],
+                });
+            }
+            let v = if s.fmt == Fmt::Indexed { *index_domain(s).first().unwrap_or(&0) } else { 0 };
+            s.cels.push(CelSpec {
+                frame: 0,
+                layer: li,
+                x: 0,
+                y: 0,
+                opacity: 255,
+                body: CelBody::Raw {
+                    w: side,
+                    h: side,
+                    pixels: vec![v; side as usize * side as usize * bpp],
+                    compressed: true,
+                    level: 9,
+                },
+                ud: None,
+                extra: false,
+            });
+            for k in 1..=nlinks {
+                s.cels.push(CelSpec {
+                    frame: k as u16,
+                    layer: li,
+                    x: 0,
+                    y: 0,
+                    opacity: 255,
+                    body: CelBody::Linked(0),
+                    ud: None,
+                    extra: false,
+                });
+            }
+            format!("{}x{} compressible cel + {} linked cels", side, side, nlinks)
         }
         "dangling-user-data" => {
             // user data in a file with no preceding attachable entity
